@@ -65,6 +65,7 @@ class Check:
         self.assumptions = []
         self.broken = []           # names of theorems / correspondences that no longer check
         self.rule = ""
+        self.last_case = None
         self.work = os.path.join(WORK, pid)
         os.makedirs(self.work, exist_ok=True)
         self.quick = tier == "quick"
@@ -73,6 +74,7 @@ class Check:
     def case(self, obj, nontrivial=True, sample_cap=6):
         """count one evaluated case; obj is a JSON-able description used for distinctness"""
         self.evaluations += 1
+        self.last_case = obj
         if nontrivial:
             h = canon_hash(obj)
             if h not in self.nontrivial:
